@@ -41,6 +41,7 @@ type fileEnv struct {
 	root    boson.Address // manifest reference (the "rootCid" of the protocol)
 	fileRef boson.Address // the file's own root chunk (not a manifest)
 	nChunks int           // chunkMax as ChunkInfo counts it
+	leaf    boson.Address // one data chunk of the file
 }
 
 func (e *env) file() *fileEnv {
@@ -85,6 +86,7 @@ func (e *env) file() *fileEnv {
 		for _, p := range hashes {
 			for _, x := range p {
 				seen[string(x)] = true
+				f.leaf = boson.NewAddress(x)
 			}
 		}
 		f.nChunks = len(seen)
@@ -318,6 +320,7 @@ var (
 		root    []byte
 		fileRef []byte
 		nChunks int
+		leaf    []byte
 	}
 )
 
@@ -326,10 +329,11 @@ func newEnvFileInfo() *struct {
 	root    []byte
 	fileRef []byte
 	nChunks int
+	leaf    []byte
 } {
 	fiOnce.Do(func() {
 		f := newEnv().file()
-		fiVal.root, fiVal.fileRef, fiVal.nChunks = f.root.Bytes(), f.fileRef.Bytes(), f.nChunks
+		fiVal.root, fiVal.fileRef, fiVal.nChunks, fiVal.leaf = f.root.Bytes(), f.fileRef.Bytes(), f.nChunks, f.leaf.Bytes()
 	})
 	return &fiVal
 }
